@@ -166,3 +166,15 @@ func avoid(ctx *Ctx, o *gen.EvOpts, keys ...string) {
 	}
 	o.Excluded = func(k string) { ctx.Stats.Exclude(k) }
 }
+
+// genInvalid handles a generated stream the validator rejects: counted and discarded in a search run
+// (the round-trip properties quantify over rules-valid streams only), an error when replaying a stored
+// case (a regression input must stay valid) or when VERIF_STRICT_GEN=1 (generator development).
+func genInvalid(ctx *Ctx, idx int, err interface{}, evs []ev.Event) error {
+	ctx.Stats.Count("generator_invalid", 1)
+	ctx.Label("generator_invalid")
+	if strictGen() || ctx.Replaying {
+		return fmt.Errorf("the validator rejects this stream at event %d (%v): %v\n%s", idx, evs[idx], err, ev.ListString(evs))
+	}
+	return nil
+}
